@@ -1,0 +1,31 @@
+//go:build verif
+// +build verif
+
+package js_printer
+
+import "github.com/evanw/esbuild/internal/js_ast"
+
+// Thin wrappers (no logic) for the C01 template / BigInt / regexp checks in /verif.
+
+// printExpr of an untagged template literal whose substitutions are all `this`
+func VerifPrintTemplate(options Options, prefix []byte, head []uint16, tails [][]uint16) []byte {
+	p := verifBarePrinter(options, prefix, 0)
+	parts := make([]js_ast.TemplatePart, len(tails))
+	for i, t := range tails {
+		parts[i] = js_ast.TemplatePart{Value: js_ast.Expr{Data: js_ast.EThisShared}, TailCooked: t}
+	}
+	p.printExpr(js_ast.Expr{Data: &js_ast.ETemplate{HeadCooked: head, Parts: parts}}, js_ast.LLowest, 0)
+	return p.js
+}
+
+func VerifPrintBigInt(options Options, prefix []byte, value string) []byte {
+	p := verifBarePrinter(options, prefix, 0)
+	p.printExpr(js_ast.Expr{Data: &js_ast.EBigInt{Value: value}}, js_ast.LLowest, 0)
+	return p.js
+}
+
+func VerifPrintRegExp(options Options, prefix []byte, value string) []byte {
+	p := verifBarePrinter(options, prefix, 0)
+	p.printExpr(js_ast.Expr{Data: &js_ast.ERegExp{Value: value}}, js_ast.LLowest, 0)
+	return p.js
+}
